@@ -41,6 +41,20 @@ def child(payload, hashseed):
     return 'NO-OUTPUT'
 
 
+def own_class_prior(cls, mod):
+    """Earlier tasks of the SAME optimizer class, built with other hyperparameters (both ends of the working range), on other sizes
+    (an odd number of agents x iterations x one variable: odd counts of scalar draws).  State shared between instances of one class
+    (a defaults table updated in place, a spare deviate kept by a helper) shows up only after such a workload."""
+    from harness import srun_matrix as M
+    r = hlib.rng('c05own' + cls)
+    na = 13 if cls == 'WCA' else 5
+    out = []
+    for mode, nv, ni in (('hi', 1, 3), ('lo', 2, 1)):
+        hp = M.hyperparams(cls, mode, r, na)
+        out.append({'cls': cls, 'mod': mod, 'hp': hp or None, 'n_agents': na, 'n_vars': nv, 'n_iter': ni, 'seed': 1234})
+    return ('same-class-other-hyperparams', '3', out)
+
+
 def main():
     doc = hlib.payload() or {}
     rng = hlib.rng('c05x')
@@ -54,7 +68,7 @@ def main():
             if cls == 'WCA':
                 na = max(na, 12)
             seed = rng.randrange(1 << 30)
-            for name, hs, prior in PRIORS:
+            for name, hs, prior in PRIORS + [own_class_prior(cls, mod)]:
                 jobs.append((cls, (na, nv, ni), seed, name, hs, {'cls': cls, 'mod': mod, 'n_agents': na, 'n_vars': nv, 'n_iter': ni, 'seed': seed, 'prior': prior}))
             jobs.append((cls, (na, nv, ni), seed, 'other-seed', '0', {'cls': cls, 'mod': mod, 'n_agents': na, 'n_vars': nv, 'n_iter': ni, 'seed': seed + 1, 'prior': []}))
         # the same task in a hypercomplex space (agents rely on the untouched default unit bounds), and -- for two optimizers -- on an
@@ -86,7 +100,7 @@ def main():
         elif g.get('other-seed') == g.get('none'):
             records.append({'key': 'xproc:different-seeds-same-run:%s' % cls, 'optimizer': cls,
                             'what': 'two different seeds give the same run (the stream is not consumed)', 'config': {'cls': cls, 'size': size, 'seed': seed, 'digests': g}})
-    hlib.emit({'records': records, 'tasks': len(jobs), 'groups': len(groups), 'variants': [p[0] for p in PRIORS]})
+    hlib.emit({'records': records, 'tasks': len(jobs), 'groups': len(groups), 'variants': [p[0] for p in PRIORS] + ['same-class-other-hyperparams']})
 
 
 if __name__ == '__main__':
